@@ -296,7 +296,7 @@ def parse_unit(path):
                 section = ('head',)
             elif cmd == 'loop':
                 n = int(words[1])
-                info = {'text': '', 'line': ln_no, 'binder': None, 'match': None}
+                info = {'text': '', 'line': ln_no, 'binder': None, 'match': None, 'optional': 'optional' in words[2:]}
                 rest = d.split(None, 2)[2] if len(words) > 2 else ''
                 mb = re.search(r'binder=(\w+)', rest)
                 if mb:
@@ -414,6 +414,8 @@ def render_fn(sf, item, d, drops, em, canary, take_opts=()):
     if d:
         loops = R.find_loops(src, mask, body_open + 1, body_close)
         for n, info in d.loops.items():
+            if n >= len(loops) and info.get('optional'):
+                continue
             if n >= len(loops):
                 raise LostAnchor('%s: loop #%d not found (function has %d loops)' % (d.path, n, len(loops)))
             kw_i, kw, b_open = loops[n]
@@ -571,7 +573,7 @@ def generate(unit_dir, out_path, canary=False):
             if want_canary:
                 # the original is not re-verified in the canary file
                 d2_opts = d.opts
-                d.opts = d.opts + ['external_body']
+                d.opts = d.opts + ['external_body', 'body=unimplemented']
                 render_fn(sf, item, d, drops, em, canary=False)
                 d.opts = d2_opts
                 render_fn(sf, item, d, drops, em, canary=True)
